@@ -222,10 +222,16 @@ func main() {
 		knownSeen := map[string]int{}
 		var fresh []violation
 		for _, v := range viols {
+			// a violation is a known finding only if EVERY pattern tag the harness computed
+			// for it is listed as open; anything else is a different violation
 			matched := ""
 			for _, t := range v.Known {
 				if _, ok := open[t]; ok {
-					matched = t
+					if matched == "" {
+						matched = t
+					}
+				} else {
+					matched = ""
 					break
 				}
 			}
